@@ -7,7 +7,18 @@ Everything is stated for ALL byte strings / value trees / argument lists (no bou
 length or depth).  Byte strings are lists of naturals below 256 (`IsBytes`).
 The Impl model (`Model.lean`) is the code as it is, defects included; where the unchanged
 code violates the property the full statement is kept as a `def … : Prop`, refuted by a
-concrete witness, and the strongest true part is proved under a decidable guard.
+concrete witness, and the strongest true part is proved under a decidable guard (the json
+statements of section 3).
+
+Repaired in /repo and followed here (the guard is gone, the pre-fix behaviour is a named
+historical definition with a checked statement, section 4):
+* `repeat` tests its count before it calls `strings.Repeat` — `C19_no_panic` proves the full
+  statement `C19_full_no_panic` (before: `C19_counterexample_repeat_panics`, guard `safeArgs`);
+  `C19_fixed_repeat_panicked` keeps the old inventory's refutation;
+* the rune argument of `bytes.contains_rune` / `index_rune` is one UTF-8 character
+  (`C19_fixed_rune_arg_was_bytewise`), `math.abs` clears the sign bit
+  (`C19_fixed_abs_kept_negzero`, `C19_fixed_abs_differs_iff`), `math.pow10` hands an int to
+  `math.Pow10` unchanged (`C19_fixed_pow10_exponent_wrapped`).
 -/
 namespace Risor.C19
 
@@ -295,11 +306,19 @@ theorem fitsAll_length : ∀ (cs : List Conv) (gs : List GoVal), fitsAll cs gs =
 
 /-- GLUE FAITHFUL: for every wrapper signature, every Go function `f` and every tuple of Go
     values of the signature's types, calling the wrapper on the injected tuple returns exactly
-    the injection of what `f` returns on that tuple (passed on in the recorded order). -/
+    what the exported function returns on that tuple: an error value if one of its own tests
+    fires, and otherwise the injection of what `f` returns on the tuple (passed on in the
+    recorded order). -/
 theorem glue_faithful (sig : Sig) (f : GoFun) (gs : List GoVal) (h : fitsAll sig.args gs = true) :
-    wrap sig f (gs.map inject) = outOf (f (passed sig gs)) := by
-  unfold wrap
+    wrap sig f (gs.map inject) = if refuses sig gs then .err else outOf (f (passed sig gs)) := by
+  unfold wrap callInner
   simp [fitsAll_length _ _ h, projectAll_inject _ _ h]
+
+/-- the same for a wrapper whose exported function makes no test of its own (every wrapper of
+    the inventory but `repeat`): the result is the injection of the Go result. -/
+theorem glue_faithful_plain (sig : Sig) (hp : sig.pre = []) (f : GoFun) (gs : List GoVal)
+    (h : fitsAll sig.args gs = true) : wrap sig f (gs.map inject) = outOf (f (passed sig gs)) := by
+  rw [glue_faithful sig f gs h]; simp [refuses, hp]
 
 /-- ERRORS ARE VALUES: whatever the arguments (any number, any types), a wrapper around a Go
     function that does not panic returns a value or an error value — never a panic. -/
@@ -312,40 +331,173 @@ theorem wrap_no_panic (sig : Sig) (f : GoFun) (hf : ∀ gs, f gs ≠ none) (args
   · split at ho
     · subst ho; simp
     · rename_i gs _
-      cases hfg : f (passed sig gs) with
-      | none => exact absurd hfg (hf _)
-      | some r => rw [hfg] at ho; subst ho; simp [outOf]
+      unfold callInner at ho
+      split at ho
+      · subst ho; simp
+      · cases hfg : f (passed sig gs) with
+        | none => exact absurd hfg (hf _)
+        | some r => rw [hfg] at ho; subst ho; simp [outOf]
 
 /-- a Go library: one function per name; it panics exactly on `goPanics` (for the inventory:
     `strings.Repeat` with a negative count or an overflowing length) -/
 def LibSpec (lib : String → GoFun) : Prop := ∀ go gs, lib go gs = none ↔ goPanics go gs = true
 
-/-- FULL STATEMENT (errors, not panics): no wrapper of the strings module ever panics, for
-    any library that behaves like Go's and any arguments.  FALSE on the unchanged code. -/
-def C19_full_no_panic : Prop :=
-  ∀ lib, LibSpec lib → ∀ sig ∈ stringsSigs, ∀ args, wrap sig (lib sig.go) args ≠ .panic
+/-- FULL STATEMENT (errors, not panics): no wrapper of an inventory ever panics, for any
+    library that behaves like Go's and any arguments. -/
+def NoPanic (sigs : List Sig) : Prop :=
+  ∀ lib, LibSpec lib → ∀ sig ∈ sigs, ∀ args, wrap sig (lib sig.go) args ≠ .panic
+
+/-- the full statement for the strings module as it is -/
+def C19_full_no_panic : Prop := NoPanic stringsSigs
 
 def demoLib : String → GoFun := fun go gs => if goPanics go gs then none else some (.bool false)
 
-/-- `strings.repeat("a", -1)`: the count is passed straight to `strings.Repeat`, which panics. -/
-theorem C19_counterexample_repeat_panics : ¬ C19_full_no_panic := by
+theorem demoLib_spec : LibSpec demoLib := by
+  intro go gs; unfold demoLib; split <;> simp_all
+
+/-- what `projectAll` returns has the converters' types -/
+theorem projectAll_fits : ∀ (cs : List Conv) (args : List Val) (gs : List GoVal),
+    projectAll cs args = some gs → fitsAll cs gs = true
+  | [], [], gs, h => by simp [projectAll] at h; subst h; rfl
+  | [], _ :: _, _, h => by simp [projectAll] at h
+  | _ :: _, [], _, h => by simp [projectAll] at h
+  | c :: cs, v :: vs, gs, h => by
+    simp only [projectAll] at h
+    cases hp : project c v with
+    | none => simp [hp] at h
+    | some g =>
+      cases hq : projectAll cs vs with
+      | none => simp [hp, hq] at h
+      | some gs' =>
+        simp [hp, hq] at h
+        subst h
+        have hfit : fits c g = true := by
+          cases c <;> cases v <;> simp [project] at hp <;> try (subst hp; rfl)
+          rename_i xs
+          cases hx : Vals.toStrs xs with
+          | none => simp [hx] at hp
+          | some l => simp [hx] at hp; subst hp; rfl
+        simp [fitsAll, hfit, projectAll_fits cs vs gs' hq]
+
+/-- the tests of an exported function COVER the panic domain of the Go function it calls: on
+    every tuple of the signature's types on which the Go function would panic, a test fires
+    (so the Go function is not called there) -/
+def Covered (sig : Sig) : Prop :=
+  ∀ gs, fitsAll sig.args gs = true → goPanics sig.go (passed sig gs) = true → refuses sig gs = true
+
+/-- ERRORS, NOT PANICS, from coverage: a wrapper whose tests cover the panic domain of its Go
+    function never panics — for every library behaving like Go's and every argument list (any
+    number of arguments, any types). -/
+theorem no_panic_of_covered (lib : String → GoFun) (hl : LibSpec lib) (sig : Sig) (hc : Covered sig)
+    (args : List Val) : wrap sig (lib sig.go) args ≠ .panic := by
+  unfold wrap
+  split
+  · simp
+  · split
+    · simp
+    · rename_i gs hp
+      unfold callInner
+      split
+      · simp
+      · rename_i hr
+        cases hfg : lib sig.go (passed sig gs) with
+        | none =>
+          have := hc gs (projectAll_fits _ _ _ hp) ((hl _ _).1 hfg)
+          exact absurd this hr
+        | some r => simp [outOf]
+
+/-- `count > math.MaxInt/len(s)` (integer division, `len(s) > 0`) says exactly that the product
+    `len(s)·count` exceeds `math.MaxInt` -/
+theorem div_lt_iff_overflow (l n : Int) (hl : 0 < l) : maxInt64 / l < n ↔ maxInt64 < l * n := by
+  rw [Int.ediv_lt_iff_lt_mul hl, Int.mul_comm]
+
+/-- the two tests of the repaired `repeat` fire EXACTLY on the panic domain of `strings.Repeat`
+    — on every string and every count: nothing Go computes is refused, nothing Go panics on
+    is passed on -/
+theorem repeat_tests_exact (s : Bytes) (n : Int) :
+    refuses ⟨"repeat", "strings.Repeat", [.str, .int], [0, 1], .str, [.neg 1, .lenMulOverflows 0 1]⟩
+        [.str s, .int n]
+      = goPanics "strings.Repeat" [.str s, .int n] := by
+  simp only [refuses, List.any_cons, List.any_nil, Bool.or_false, Check.fires, List.getD_cons_zero,
+    List.getD_cons_succ, goPanics]
+  by_cases hn : n < 0
+  · simp [hn]
+  · cases hs : s.length with
+    | zero => simp [hn]; unfold maxInt64; omega
+    | succ k =>
+      have := div_lt_iff_overflow ((k : Int) + 1) n (by omega)
+      simp [hn, this]
+
+/-- every wrapper of the strings module is covered: `repeat` by its two tests, the others
+    because their Go functions do not panic -/
+theorem stringsSigs_covered : ∀ sig ∈ stringsSigs, Covered sig := by
+  intro sig hs gs hf hg
+  simp only [stringsSigs, List.mem_cons, List.not_mem_nil, or_false] at hs
+  rcases hs with h | h | h | h | h | h | h | h | h | h | h | h | h | h | h | h | h | h <;>
+    subst h <;> try (simp [goPanics, passed] at hg; done)
+  -- repeat
+  match gs, hf with
+  | [.str s, .int n], _ =>
+    rw [repeat_tests_exact]
+    simpa [passed] using hg
+
+/-- **ERRORS, NOT PANICS (the full statement, proved since the repair of `repeat`).**  No
+    wrapper of the strings module as regenerated on this run ever panics: for every library
+    that behaves like Go's (panicking exactly on `goPanics`), every wrapper of the inventory
+    and every argument list — any number of arguments, of any types, any string, any count —
+    the wrapper returns a value or an error value. -/
+theorem C19_no_panic : C19_full_no_panic := fun lib hl sig hs args =>
+  no_panic_of_covered lib hl sig (stringsSigs_covered sig hs) args
+
+/-- AGREEMENT WITH GO for `repeat`, on every string and every count: where `strings.Repeat`
+    is defined the wrapper returns its result, where it panics the wrapper returns an error
+    value. -/
+theorem repeat_agrees_with_go (lib : String → GoFun) (hl : LibSpec lib) (s : Bytes) (n : Int) :
+    wrap ⟨"repeat", "strings.Repeat", [.str, .int], [0, 1], .str, [.neg 1, .lenMulOverflows 0 1]⟩
+        (lib "strings.Repeat") [.str s, .int n]
+      = match lib "strings.Repeat" [.str s, .int n] with
+        | some r => .val (inject r)
+        | none => .err := by
+  have hg := glue_faithful ⟨"repeat", "strings.Repeat", [.str, .int], [0, 1], .str, [.neg 1, .lenMulOverflows 0 1]⟩
+    (lib "strings.Repeat") [.str s, .int n] rfl
+  simp only [List.map_cons, List.map_nil, inject] at hg
+  rw [hg, repeat_tests_exact]
+  cases hlib : lib "strings.Repeat" [.str s, .int n] with
+  | none => simp [(hl _ _).1 hlib]
+  | some r =>
+    have : goPanics "strings.Repeat" [.str s, .int n] ≠ true := fun h => by
+      have := (hl _ _).2 h; rw [hlib] at this; cases this
+    simp [this, passed, hlib, outOf]
+
+/-! ### the repaired defect, kept as checked statements -/
+
+/-- BEFORE the repair ("fix: strings.repeat, bytes.repeat and byte_slice.repeat return an error
+    instead of panicking") the full statement was FALSE: `strings.repeat("a", -1)` handed the
+    count straight to `strings.Repeat`, which panics (recorded as C19-repeat-panics). -/
+theorem C19_fixed_repeat_panicked : ¬ NoPanic preFixStringsSigs := by
   intro h
-  have hspec : LibSpec demoLib := by
-    intro go gs; unfold demoLib; split <;> simp_all
-  have := h demoLib hspec ⟨"repeat", "strings.Repeat", [.str, .int], [0, 1], .str⟩ (by decide)
+  have := h demoLib demoLib_spec ⟨"repeat", "strings.Repeat", [.str, .int], [0, 1], .str, []⟩ (by decide)
     [.str [97], .int (-1)]
   exact this rfl
 
-/-- the decidable guard: the converted arguments are not in the panic domain of the Go function -/
+/-- the repair is what separates the two inventories: they differ in `repeat`'s tests and in
+    nothing else -/
+theorem C19_fixed_repeat_repair :
+    preFixStringsSigs = stringsSigs.map (fun sig => { sig with pre := [] })
+      ∧ (stringsSigs.filter (fun sig => sig.pre != [])).map (·.name) = ["repeat"] := by
+  constructor <;> decide
+
+/-- the pre-fix guard, kept for the record: the converted arguments are not in the panic
+    domain of the Go function.  Under it the OLD wrapper did not panic either
+    (`C19_fixed_partial_no_panic`); the repaired code needs no guard (`C19_no_panic`). -/
 def safeArgs (sig : Sig) (args : List Val) : Bool :=
   match projectAll sig.args args with
   | some gs => !goPanics sig.go (passed sig gs)
   | none => true
 
-/-- PARTIAL (errors, not panics): for every wrapper of the regenerated inventory, every
-    library behaving like Go's and every argument list outside the panic domain, the wrapper
-    returns a value or an error value. -/
-theorem C19_partial_no_panic (lib : String → GoFun) (hl : LibSpec lib) (sig : Sig) (args : List Val)
+/-- HISTORICAL PARTIAL statement: any wrapper (with or without tests of its own), any library
+    behaving like Go's, any argument list outside the panic domain: no panic. -/
+theorem C19_fixed_partial_no_panic (lib : String → GoFun) (hl : LibSpec lib) (sig : Sig) (args : List Val)
     (hs : safeArgs sig args = true) : wrap sig (lib sig.go) args ≠ .panic := by
   unfold wrap
   split
@@ -356,30 +508,99 @@ theorem C19_partial_no_panic (lib : String → GoFun) (hl : LibSpec lib) (sig : 
     · rename_i gs hp
       rw [hp] at hs
       simp only [Bool.not_eq_true'] at hs
-      cases hfg : lib sig.go (passed sig gs) with
-      | none =>
-        have := (hl _ _).1 hfg
-        rw [this] at hs
-        exact absurd hs (by simp)
-      | some r => simp [outOf]
+      unfold callInner
+      split
+      · simp
+      · cases hfg : lib sig.go (passed sig gs) with
+        | none =>
+          have := (hl _ _).1 hfg
+          rw [this] at hs
+          exact absurd hs (by simp)
+        | some r => simp [outOf]
 
-/-- every function of the inventory other than `repeat` is outside the guard's reach: it
-    never panics, whatever the arguments -/
-theorem C19_only_repeat_panics (lib : String → GoFun) (hl : LibSpec lib) (sig : Sig)
-    (hs : sig ∈ stringsSigs) (hn : sig.name ≠ "repeat") (args : List Val) :
-    wrap sig (lib sig.go) args ≠ .panic := by
-  apply C19_partial_no_panic lib hl
-  unfold safeArgs
-  split
-  · simp only [stringsSigs, List.mem_cons, List.not_mem_nil, or_false] at hs
-    rcases hs with h | h | h | h | h | h | h | h | h | h | h | h | h | h | h | h | h | h <;>
-      subst h <;> first | (exact absurd rfl hn) | simp [goPanics, passed]
-  · rfl
-
-/-- non-vacuity: `strings.repeat("ab", 3)` is inside the guard; `strings.split("a,b", ",")`
-    returns the injected Go result -/
-example : safeArgs ⟨"repeat", "strings.Repeat", [.str, .int], [0, 1], .str⟩ [.str [97, 98], .int 3] = true := by decide
+/-- non-vacuity: `LibSpec` is satisfiable (`demoLib`); `strings.repeat("ab", 3)` reaches the Go
+    function, `strings.repeat("a", -1)` and `strings.repeat("ab", MaxInt64)` are refused with an
+    error value, `strings.repeat("", MaxInt64)` is not refused (Go returns ""); `strings.split("a,b", ",")`
+    is a tuple of the signature's types -/
+example : LibSpec demoLib := demoLib_spec
+example : (findSig "repeat").map (fun sig => refuses sig [.str [97, 98], .int 3]) = some false := by decide
+example : (findSig "repeat").map (fun sig => refuses sig [.str [97], .int (-1)]) = some true := by decide
+example : (findSig "repeat").map (fun sig => refuses sig [.str [97, 98], .int 9223372036854775807]) = some true := by decide
+example : (findSig "repeat").map (fun sig => refuses sig [.str [], .int 9223372036854775807]) = some false := by decide
 example : fitsAll [.str, .str] [.str [97, 44, 98], .str [44]] = true := by decide
+
+/-! ### three more repaired defects (hand-written wrappers), kept as checked statements -/
+
+/-- the rune argument as repaired: a single byte is accepted exactly when it is ASCII -/
+theorem runeArg_single_byte (a : Nat) : runeArgOK [a] = decide (a < 128) := by
+  unfold runeArgOK runeWidth
+  by_cases h : a < 128
+  · simp [h]
+  · by_cases h2 : 194 ≤ a ∧ a ≤ 223
+    · simp [h, h2]
+    · by_cases h3 : 224 ≤ a ∧ a ≤ 239
+      · simp [h, h2, h3]
+      · by_cases h4 : 240 ≤ a ∧ a ≤ 244 <;> simp [h, h2, h3, h4]
+
+/-- … and every accepted argument is 1 to 4 bytes long -/
+theorem runeArg_length (s : Bytes) (h : runeArgOK s = true) : 1 ≤ s.length ∧ s.length ≤ 4 := by
+  unfold runeArgOK at h
+  simp only [Bool.and_eq_true, bne_iff_ne, ne_eq, beq_iff_eq] at h
+  obtain ⟨hne, hw⟩ := h
+  cases s with
+  | nil => exact absurd rfl hne
+  | cons a r =>
+    have : runeWidth (a :: r) ≤ 4 := by
+      unfold runeWidth
+      dsimp only
+      repeat' split
+      all_goals omega
+    rw [hw] at this
+    exact ⟨by simp, this⟩
+
+/-- BEFORE the repair ("fix: bytes.contains_rune and bytes.index_rune accept a multi-byte
+    character"; recorded as C19-bytes-rune-multibyte) the argument was measured in bytes: "é"
+    (C3 A9) and "日" were refused although `bytes.ContainsRune` is defined on them, and the lone
+    byte E9 — not a character — was accepted; now it is the other way round. -/
+theorem C19_fixed_rune_arg_was_bytewise :
+    runeArgOKPreFix [195, 169] = false ∧ runeArgOK [195, 169] = true ∧
+    runeArgOKPreFix [230, 151, 165] = false ∧ runeArgOK [230, 151, 165] = true ∧
+    runeArgOKPreFix [233] = true ∧ runeArgOK [233] = false ∧
+    runeArgOKPreFix [] = false ∧ runeArgOK [] = false ∧
+    runeArgOK [195, 169, 195, 169] = false := by decide
+
+/-- on arguments of one byte the two tests agree exactly on ASCII -/
+theorem C19_fixed_rune_arg_agree_ascii (a : Nat) (h : a < 128) :
+    runeArgOKPreFix [a] = true ∧ runeArgOK [a] = true := by
+  refine ⟨rfl, ?_⟩; rw [runeArg_single_byte]; simp [h]
+
+/-- `math.abs` as repaired: for every binary64 bit pattern the result has a clear sign bit and
+    the same magnitude bits -/
+theorem abs_clears_sign (b : Nat) (h : b < 2 ^ 64) :
+    absBits b < 2 ^ 63 ∧ (absBits b = b ∨ absBits b + 2 ^ 63 = b) := by
+  unfold absBits; omega
+
+/-- BEFORE the repair ("fix: math.abs(-0.0) returns +0.0"; recorded as C19-math-abs-negzero)
+    `math.abs(-0.0)` was -0.0 … -/
+theorem C19_fixed_abs_kept_negzero : absBitsPreFix (2 ^ 63) = 2 ^ 63 ∧ absBits (2 ^ 63) = 0 := by decide
+
+/-- … and the old and the repaired `math.abs` differ on EXACTLY -0.0 and the NaNs with the sign
+    bit set (every other bit pattern, ±Inf included, was already right) -/
+theorem C19_fixed_abs_differs_iff (b : Nat) (h : b < 2 ^ 64) :
+    absBitsPreFix b ≠ absBits b ↔ (b = 2 ^ 63 ∨ 2 ^ 63 + 0x7FF0000000000000 < b) := by
+  unfold absBitsPreFix absBits
+  split <;> omega
+
+/-- BEFORE the repair ("fix: math.pow10 passes an int argument to math.Pow10 unchanged";
+    recorded as C19-math-pow10-maxint) the exponent went through float64: for the 512 ints up to
+    MaxInt64 the float is 2^63 and the conversion back wrapped to MinInt64 (so the result was 0
+    instead of +Inf); one below that range it only lost its low bits, which `math.Pow10` does
+    not see.  Now the exponent is the argument. -/
+theorem C19_fixed_pow10_exponent_wrapped :
+    pow10ExpPreFix (2 ^ 63 - 1) = -(2 ^ 63) ∧ pow10ExpPreFix (2 ^ 63 - 512) = -(2 ^ 63) ∧
+    pow10ExpPreFix (2 ^ 63 - 513) = 2 ^ 63 - 1024 ∧ pow10ExpPreFix 308 = 308 ∧
+    pow10ExpPreFix (-(2 ^ 63)) = -(2 ^ 63) ∧ ∀ i, pow10Exp i = i := by
+  refine ⟨by decide, by decide, by decide, by decide, by decide, fun _ => rfl⟩
 
 /-! ## 5. Sessions: a result stays what it was while later calls run -/
 
@@ -547,7 +768,7 @@ theorem convRefs_peek (h : Objs) (hv : valueObjs h) : ∀ (cs : List Conv) (rs :
     signature, every Go function, every heap of argument objects without streams and every
     tuple of references into it (the same object may occur several times): the wrapper
     returns exactly what the value-level wrapper `wrap` returns on the objects' contents — so
-    `glue_faithful`, `wrap_no_panic`, `C19_partial_no_panic` hold for buffers as they do for
+    `glue_faithful`, `wrap_no_panic`, `C19_no_panic` hold for buffers as they do for
     strings and byte_slices — and every object is afterwards what it was before. -/
 theorem wrapObjs_peek (sig : Sig) (f : GoFun) (refs : List Nat) (h : Objs) (hv : valueObjs h) :
     wrapObjs .peek sig f refs h = (wrap sig f (refs.map fun r => (h.get r).asVal), h) := by
@@ -590,11 +811,12 @@ theorem uses_repeat_equal (h : Objs) (hv : valueObjs h) (us : List Use) (i j : N
 
 /-- GLUE FAITHFUL ON OBJECTS: if the contents of the referenced objects are the injections of
     the Go values `gs` (a buffer whose unread bytes are `b` stands for the Go `[]byte`/`string`
-    `b`), the wrapper returns the injection of `f gs`. -/
+    `b`), the wrapper returns what the exported function returns on `gs`: an error value if one
+    of its tests fires, the injection of `f gs` otherwise. -/
 theorem glue_faithful_objs (sig : Sig) (f : GoFun) (gs : List GoVal) (refs : List Nat) (h : Objs)
     (hv : valueObjs h) (hc : (refs.map fun r => (h.get r).asVal) = gs.map inject)
     (hf : fitsAll sig.args gs = true) :
-    (wrapObjs .peek sig f refs h).1 = outOf (f (passed sig gs)) := by
+    (wrapObjs .peek sig f refs h).1 = if refuses sig gs then .err else outOf (f (passed sig gs)) := by
   rw [wrapObjs_peek sig f refs h hv, hc]
   exact glue_faithful sig f gs hf
 
